@@ -48,8 +48,9 @@ SCHEMES = {
     'iter': dict(A='acc', C='b', X='_i', Y='_src', I='i', P='p', T='_src1', W='_i2', K='q', R='r',
                  R2='acc1', Z='zs', V='v', V2='d'),
     # numbered forms, as Gensym.refresh makes them
-    'num': dict(A='t9', C='n10', X='i11', Y='j12', I='m13', P='t11', T='t12', W='i12', K='i13',
-                R='acc7', R2='b8', Z='t10', V='_i14', V2='_src15'),
+    # (Gensym numbers from the count of names in the program, 7-12 here, upwards: a dense window)
+    'num': dict(A='t8', C='i9', X='i10', Y='t9', I='i8', P='t10', T='i11', W='t11', K='i12',
+                R='acc8', R2='b9', Z='t12', V='_i9', V2='_src9'),
 }
 
 NARROW = {
@@ -267,7 +268,10 @@ def for_programs():
                 core = q_header and ((tag in BODY_CORE and (scheme, wrap) in
                                       (('loop', 'fix2'), ('iter', None), ('plain', None)))
                                      or (scheme, wrap) == ('loop', None)
-                                     or (main and tag == 'acc' and (scheme, wrap) in (('loop', 'p2'), ('num', None))))
+                                     or (main and tag == 'acc' and (scheme, wrap) == ('loop', 'p2'))
+                                     # numbered names: bodies that make the rewrites mint many temporaries
+                                     or (main and (scheme, wrap) == ('num', None) and
+                                         tag in ('acc', 'nest', 'nestsame', 'tmp', 'while')))
                 emit(hdr, (tag,), pool, scheme, wrap, core)
                 done.add(((tag,), scheme, wrap))
         # (3) all sequences of length 2 over the whole pool, main headers and one static one
